@@ -182,7 +182,7 @@ def run_rule_equation(case, ctx):
         ctx.check(bool(eq), "equation", f"the equation of\n{form}\nevaluates to {eq}")
         ctx.label("trivial-equation")
         return
-    ctx.label("form:" + case["form"][0], "children:" + str(len(form.children)))
+    ctx.label("form:" + case["form"][0], "strat:" + case["strategy"][0], "children:" + str(len(form.children)))
     try:
         ctx.label("ctor:" + type(form.constructor).__name__)
     except Exception:
